@@ -120,28 +120,35 @@ def run(ctx):
             ctx.inst("C09-contagion", "%s/%s" % (opn, a), {"result_kinds": got})
             if not want_ok:
                 ctx.report("C09-contagion", "%s/%s" % (opn, a), "%s(%s) yields %s" % (opn, a, got), where_of(f))
-    # floor-quotient / floor-remainder are compositions of the above
-    fq = fb.find("values::Number::floor_quotient")
-    fr = fb.find("values::Number::floor_remainder")
-    cq = [callee(t) for _, t in fq.calls() if (callee(t) or "").startswith(("values::", "<values::"))]
-    cr = [callee(t) for _, t in fr.calls() if (callee(t) or "").startswith(("values::", "<values::"))]
-    ctx.inst("C09-contagion", "floor_quotient/composition", cq)
-    ctx.inst("C09-contagion", "floor_remainder/composition", cr)
-    if cq != [OPS2["div"], OPS1["floor"]]:
-        ctx.report("C09-contagion", "floor_quotient/composition", "floor_quotient is %s, expected floor(n / d)" % cq, where_of(fq))
-    if sorted(cr) != sorted([fq.name, OPS2["mul"], OPS2["sub"]]):
-        ctx.report("C09-contagion", "floor_remainder/composition", "floor_remainder is %s, expected n - floor_quotient(n, d) * d" % cr, where_of(fr))
-    else:
-        # operand wiring: sub(self, mul(fq(self, rhs), rhs))
-        p = Prov(fr)
-        sub = next(t for _, t in fr.calls() if callee(t) == OPS2["sub"])
-        mul = next(t for _, t in fr.calls() if callee(t) == OPS2["mul"])
-        fqc = next(t for _, t in fr.calls() if callee(t) == fq.name)
-        ok = p.arg_roots(sub["args"][0]) == {1} and OPS2["mul"] in {c for _, c in p.call_roots(sub["args"][1])} \
-            and fq.name in p.taint_calls(mir.op_local(mul["args"][0])) and p.arg_roots(mul["args"][1]) == {2} \
-            and p.arg_roots(fqc["args"][0]) == {1} and p.arg_roots(fqc["args"][1]) == {2}
-        if not ok:
-            ctx.report("C09-contagion", "floor_remainder/wiring", "floor_remainder does not compute n - floor_quotient(n, d) * d", where_of(fr))
+    # floor-quotient / floor-remainder are compositions of the above: formula trees on two opaque numbers
+    from . import numtables as _nt2
+    d_fq = _nt2.rule_floorq(ctx, "C09-contagion")
+
+    def _old_composition():
+        # floor-quotient / floor-remainder are compositions of the above
+        fq = fb.find("values::Number::floor_quotient")
+        fr = fb.find("values::Number::floor_remainder")
+        cq = [callee(t) for _, t in fq.calls() if (callee(t) or "").startswith(("values::", "<values::"))]
+        cr = [callee(t) for _, t in fr.calls() if (callee(t) or "").startswith(("values::", "<values::"))]
+        ctx.inst("C09-contagion", "floor_quotient/composition", cq)
+        ctx.inst("C09-contagion", "floor_remainder/composition", cr)
+        if cq != [OPS2["div"], OPS1["floor"]]:
+            ctx.report("C09-contagion", "floor_quotient/composition", "floor_quotient is %s, expected floor(n / d)" % cq, where_of(fq))
+        if sorted(cr) != sorted([fq.name, OPS2["mul"], OPS2["sub"]]):
+            ctx.report("C09-contagion", "floor_remainder/composition", "floor_remainder is %s, expected n - floor_quotient(n, d) * d" % cr, where_of(fr))
+        else:
+            # operand wiring: sub(self, mul(fq(self, rhs), rhs))
+            p = Prov(fr)
+            sub = next(t for _, t in fr.calls() if callee(t) == OPS2["sub"])
+            mul = next(t for _, t in fr.calls() if callee(t) == OPS2["mul"])
+            fqc = next(t for _, t in fr.calls() if callee(t) == fq.name)
+            ok = p.arg_roots(sub["args"][0]) == {1} and OPS2["mul"] in {c for _, c in p.call_roots(sub["args"][1])} \
+                and fq.name in p.taint_calls(mir.op_local(mul["args"][0])) and p.arg_roots(mul["args"][1]) == {2} \
+                and p.arg_roots(fqc["args"][0]) == {1} and p.arg_roots(fqc["args"][1]) == {2}
+            if not ok:
+                ctx.report("C09-contagion", "floor_remainder/wiring", "floor_remainder does not compute n - floor_quotient(n, d) * d", where_of(fr))
+
+    ctx.guarded("C09-contagion", d_fq >= 2, _old_composition)
     ctx.floor("C09-contagion", 9 + 36 + 9)
 
     # ------------------------------------------------------------------ C09-no-silent-inexact
@@ -182,6 +189,15 @@ def run(ctx):
     ctx.rule("C09-never-wrong-exact", "no exact i32 operation may panic or wrap on overflow for *any* operands")
     ctx.rule("C09-denominator-sign", "ratios are built with positive denominators (consumers are sign-naive)")
     range_and_sign(ctx, fb)
+
+    # ------------------------------------------------------------------ C09-exact
+    ctx.rule("C09-exact", "+ - * / on exact operands (integer / ratio, every combination) with symbolic components: every path's result, "
+                          "checked on the grid numerators -2..2 x denominators 1..3, is the mathematically exact result as an exact number "
+                          "with a positive denominator; division by an exact zero — and nothing else — is an error; the compiler's "
+                          "divide-by-zero assertions are never reached with a zero divisor")
+    from . import numtables as _nt0
+    _nt0.rule_exact_arith(ctx, "C09-exact", {"+": OPS2["add"], "-": OPS2["sub"], "*": OPS2["mul"], "/": OPS2["div"]})
+    _nt0.rule_zero_guards(ctx, "C09-exact")
 
     # ------------------------------------------------------------------ C09-folds
     ctx.rule("C09-folds", "the n-ary + - * / are left folds of the binary operation in argument order ((- a) = 0 - a, (/ a) = 1 / a): "
@@ -314,6 +330,28 @@ def full_range_failures(fb, paths, pos_den_only=False):
     return failing
 
 
+_GRID = {}
+
+
+def division_table_holds(fb):
+    """True when the symbolic division table (numtables.rule_exact_arith for `/`, rule_zero_guards) decided every grid point and found
+    nothing: division by an exact zero is an error and every quotient is built with a positive denominator.  Ratios built *inside*
+    the division are then covered by that table; the interval interpreter (non-relational) cannot see guards such as
+    `[b1, a2, b2].iter().try_for_each(check)?` and would only guess."""
+    if id(fb) not in _GRID:
+        from .ctx import Ctx
+        from . import numtables
+        sub = Ctx("C09", "quick", 0)
+        sub._fb = {"dev": fb}
+        try:
+            d = numtables.rule_exact_arith(sub, "C09-exact", {"/": OPS2["div"]})
+            z = numtables.rule_zero_guards(sub, "C09-exact")
+            _GRID[id(fb)] = d == 1 and z is True and not sub.reports and not sub.undecideds
+        except Exception:
+            _GRID[id(fb)] = False
+    return _GRID[id(fb)]
+
+
 def range_and_sign(ctx, fb, census=True):
     kinds = ["Integer", "Rational"]
     signs = {"pos": IV(1, R15), "neg": IV(-R15, -1)}
@@ -380,11 +418,13 @@ def range_and_sign(ctx, fb, census=True):
             # denominators of every ratio built, when all operand denominators are positive
             opnd_den_pos = (A[0] != "Rational" or A[1] == "pos") and (Bc is None or Bc[0] != "Rational" or Bc[1] == "pos")
             if opnd_den_pos:
-                for (fn, blk, e) in it.aggregates:
+                for (fn, blk, e), stk in zip(it.aggregates, it.agg_stacks):
                     if e.adt and e.adt.endswith("values::Number") and e.name == "Rational":
                         d = e.fields[1]
                         okd = isinstance(d, IV) and d.lo >= 1
                         ctx.inst("C09-denominator-sign", "%s@%s" % (label, fn.rsplit("::", 1)[-1]), {"denominator": repr(d)})
+                        if not okd and OPS2["div"] in stk and division_table_holds(fb):
+                            continue                 # built inside the division: decided by the symbolic division table
                         if not okd:
                             neg_den.setdefault(fn, (label, repr(d)))
     for (fn, op), (label, span) in sorted(bad_range.items()):
@@ -441,11 +481,13 @@ def range_and_sign(ctx, fb, census=True):
             except RuntimeError as e:
                 ctx.undecided("C09-denominator-sign", _short(g.name) + "/analysis", "interval analysis of %s did not terminate: %s" % (g.name, e), where_of(g))
                 break
-            for (fn, blk, e) in it.aggregates:
+            for (fn, blk, e), stk in zip(it.aggregates, it.agg_stacks):
                 if e.adt and e.adt.endswith("values::Number") and e.name == "Rational":
                     d = e.fields[1]
                     okd = isinstance(d, IV) and d.lo >= 1
                     ctx.inst("C09-denominator-sign", "%s@%s" % (label, fn.rsplit("::", 1)[-1]), {"denominator": repr(d)})
+                    if not okd and OPS2["div"] in stk and division_table_holds(fb):
+                        continue
                     if not okd:
                         neg_den.setdefault(g.name, (label, repr(d)))
     ctx.inst("C09-denominator-sign", "other-ratio-builders", {"functions": [g.name for g in extra]})
